@@ -49,6 +49,24 @@ type pairRes struct {
 }
 
 func init() {
+	// C02, Nesting spec: pairs of values that differ only in how their members are nested
+	handlers["setalg-nest"] = func(raw json.RawMessage) *Obs {
+		var cs struct {
+			A json.RawMessage `json:"a"`
+			B json.RawMessage `json:"b"`
+		}
+		if err := json.Unmarshal(raw, &cs); err != nil {
+			return &Obs{Fails: []Fail{{Sig: Signature{Symptom: "bad-case"}, Detail: err.Error()}}}
+		}
+		a, b := MustParseAV(cs.A), MustParseAV(cs.B)
+		c := &saCtx{mode: "c02", obs: &Obs{Key: a.Canon() + "|" + b.Canon(), NonTrivial: 1}}
+		c.obs.Sample = fmt.Sprintf("a = %s ; b = %s (nesting near-miss)", a.RenderSugar(), b.RenderSugar())
+		ras, rbs := c.realiseAll(a), c.realiseAll(b)
+		if len(ras) > 0 && len(rbs) > 0 {
+			c.equalityObservations(a, b, pairRes{}, ras, rbs)
+		}
+		return c.obs
+	}
 	for _, m := range []string{"c01", "c02", "c03", "c12"} {
 		mode := m
 		handlers["setalg-"+mode] = func(c json.RawMessage) *Obs { return handleSetAlg(mode, c) }
